@@ -80,6 +80,39 @@ func (c *ctx) parChunkFacts() {
 	c.emitExpr("par_skipCond", "parSkipCond", "(hasNext nextActive : Bool) (nextLen : Nat)", "Bool", skipCond, env, "false")
 	c.emitExpr("par_stopCond", "parStopCond", "(ilen size : Nat)", "Bool", stopCond, env, "false")
 	c.emitExpr("par_finalErrCond", "parFinalErrCond", "(ilen size : Nat)", "Bool", finalCond, env, "false")
+	// worker layout in IndexFromFile: number of workers, spacing, start offsets, bucket capacity
+	var nnE, spanE, startE, mChunksE, nnCond ast.Expr
+	if fd := c.funcDecl(c.files, "", "IndexFromFile"); fd != nil {
+		walk(fd.Body, func(n ast.Node) bool {
+			switch t := n.(type) {
+			case *ast.AssignStmt:
+				if len(t.Lhs) == 1 && len(t.Rhs) == 1 && t.Tok.String() == ":=" {
+					switch exprString(t.Lhs[0]) {
+					case "nn":
+						nnE = t.Rhs[0]
+					case "span":
+						spanE = t.Rhs[0]
+					case "start":
+						startE = t.Rhs[0]
+					case "mChunks":
+						mChunksE = t.Rhs[0]
+					}
+				}
+			case *ast.IfStmt:
+				if strings.Contains(exprString(t.Cond), "nn") && nnCond == nil {
+					nnCond = t.Cond
+				}
+			}
+			return true
+		})
+	}
+	lenv := map[string]string{"size": "size", "max": "max", "min": "min", "uint64(n)": "n", "uint64(i)": "i", "span": "span",
+		"start": "start", "nn": "nn"}
+	c.emitExpr("par_nn", "parNN", "(size max : Nat)", "Nat", nnE, lenv, "0")
+	c.emitExpr("par_nnCond", "parNNCond", "(nn n : Nat)", "Bool", nnCond, lenv, "false")
+	c.emitExpr("par_span", "parSpan", "(size n : Nat)", "Nat", spanE, lenv, "0")
+	c.emitExpr("par_start", "parStart", "(span i : Nat)", "Nat", startE, lenv, "0")
+	c.emitExpr("par_mChunks", "parMChunks", "(size start min : Nat)", "Nat", mChunksE, lenv, "0")
 	// order of operations in start()
 	fd := c.funcDecl(c.files, "pChunker", "start")
 	c.emitShape("shape_par_start", "parStartShape", c.condCallShape(fd, []string{"len(b)==0", "c.next!=nil", "inSync", "numNullChunks>0"},
